@@ -330,8 +330,9 @@ def run(only_units=None, verbose=True, procs=None):
     bad = []
     jobs, meta = [], []
     for relpath, old, new, units, expect in MUTANTS:
-        units = [u for u in units if u in registry.UNITS and (only_units is None or u in only_units)]
-        if not units:
+        units = [u for u in units if u in registry.UNITS]
+        # a mutant is judged on ALL the units it is listed for (its edit may sit in only one of them)
+        if not units or (only_units is not None and not (set(units) & set(only_units))):
             continue
         with open(extract._abspath(relpath), encoding='utf-8') as f:
             src = f.read()
